@@ -121,10 +121,10 @@ theorem dicGet?_filter (d : Dic α) (p : Bytes × α → Bool) (h : KeysNodup d)
 end dic2
 
 theorem nameOK_nosection : NameOK nosection := by
-  constructor <;> decide
+  refine ⟨?_, ?_, ?_⟩ <;> decide
 
 theorem valOK_nil : ValOK [] := by
-  refine ⟨by simp, ?_, ?_⟩ <;> intro c hc <;> simp at hc
+  refine ⟨by simp, ?_, ?_, by simp⟩ <;> intro c hc <;> simp at hc
 
 theorem secsOK_set (secs : Dic Section) (c : Bytes) (x : Section) (h : SecsOK secs) (hc : NameOK c)
     (hx : KeysNodup x) (hxe : ∀ kv ∈ x, KeyOK kv.1 ∧ ValOK kv.2) : SecsOK (dicSet secs c x) := by
@@ -251,13 +251,13 @@ theorem trim_key (ind key ws1 : Bytes) (hind : Blank ind) (hkey : KeyOK key) (hw
     trim (ind ++ key ++ ws1) = key := by
   apply trim_margins ind key ws1 (blank_isSpace hind) (blank_isSpace hws1)
   · intro c hc; exact keyStart_not_space (hkey.2.2.2.2.1 c hc).1
-  · intro c hc; exact not_white_isSpace (hkey.2.2.2.2.2 c hc)
+  · intro c hc; exact not_white_isSpace (hkey.2.2.2.2.2.1 c hc)
 
 theorem trim_val (ws2 val ws3 : Bytes) (hws2 : Blank ws2) (hval : ValOK val) (hws3 : Blank ws3) :
     trim (ws2 ++ val ++ ws3) = val := by
   apply trim_margins ws2 val ws3 (blank_isSpace hws2) (blank_isSpace hws3)
   · intro c hc; exact not_white_isSpace (hval.2.1 c hc)
-  · intro c hc; exact not_white_isSpace (hval.2.2 c hc)
+  · intro c hc; exact not_white_isSpace (hval.2.2.1 c hc)
 
 /-- first loop of `write` on the lines of a well-formed document -/
 theorem pass1_doc (indent : Bytes) (secs : Dic Section) (doc : List Item) (hd : ∀ it ∈ doc, it.WF) (w : W1)
